@@ -38,12 +38,13 @@ B(x) == IF x THEN 1 ELSE 0
 \* written as its index in constructor order; the reader tries its cases in that order up to the stored index.
 VariantAsStruct(E, v) == StructT(E.variants[v].fields, E.variants[v].steps)
 ReaderVariant(E, idx) == CHOOSE v \in 1..Len(E.variants) : CtorIndex(E, v) = idx
-Case(e) == /\ e.ev = "case" /\ ph \in {"idle", "done"}
+Case(e) == /\ e.ev = "case"
            /\ IF e.w.k = "enum"
               THEN /\ W' = VariantAsStruct(e.w, e.vi) /\ R' = VariantAsStruct(e.r, ReaderVariant(e.r, CtorIndex(e.w, e.vi)))
                    /\ en' = [on |-> TRUE, widx |-> CtorIndex(e.w, e.vi), next |-> 0] /\ ph' = "e0"
               ELSE W' = e.w /\ R' = e.r /\ en' = NoEnum /\ ph' = "w0"
-           /\ i' = 1 /\ cnt' = ZeroCnt /\ mayfail' = FALSE /\ UNCHANGED viol
+           /\ i' = 1 /\ cnt' = ZeroCnt /\ mayfail' = FALSE
+           /\ viol' = Flag(ph \in {"idle", "done"}, "the previous case ended before its protocol was complete")
 ANewE(e) == /\ e.ev = "anew" /\ ph = "e0"
             /\ viol' = Flag(e.ver = 0 /\ e.buf = 0, "the enum's own record is not headerless")
             /\ ph' = "e1" /\ UNCHANGED <<W, R, i, cnt, mayfail, en>>
@@ -100,8 +101,24 @@ REnd(e) == /\ e.ev = "rend" /\ ph \in {"r", "rfail"}
                            "the read ends with a result the decisions do not explain")
            /\ ph' = "done" /\ UNCHANGED <<W, R, i, cnt, mayfail, en>>
 
+\* the protocol: which event may come in which phase.  Anything else is a violation too (the model stays where it
+\* is and waits for the next case), so that a trace of a deviating implementation is still read to its end.
+InProtocol(e) ==
+  \/ e.ev = "case"
+  \/ (e.ev = "anew" /\ ph \in {"e0", "w0"})
+  \/ (e.ev = "wc" /\ ph = "e1")
+  \/ (e.ev = "wf" /\ ph = "w")
+  \/ (e.ev = "afin" /\ ph \in {"w", "efin"})
+  \/ (e.ev = "wend" /\ ph = "wfin")
+  \/ (e.ev = "dnew" /\ ph = "r0")
+  \/ (e.ev = "rc" /\ ph = "rc")
+  \/ (e.ev = "rf" /\ ph = "r")
+  \/ (e.ev = "rend" /\ ph \in {"r", "rfail"})
+Unexpected(e) == /\ ~InProtocol(e)
+                 /\ viol' = Flag(FALSE, "an event that the protocol of the record mechanism does not allow at this point")
+                 /\ UNCHANGED <<ph, W, R, i, cnt, mayfail, en>>
 Next == /\ l <= Len(Rec)
-        /\ LET e == Rec[l] IN Case(e) \/ ANewE(e) \/ WC(e) \/ AFinE(e) \/ DNewE(e) \/ RC(e) \/ ANew(e) \/ WF(e) \/ AFin(e) \/ WEnd(e) \/ DNew(e) \/ RF(e) \/ REnd(e)
+        /\ LET e == Rec[l] IN Unexpected(e) \/ Case(e) \/ ANewE(e) \/ WC(e) \/ AFinE(e) \/ DNewE(e) \/ RC(e) \/ ANew(e) \/ WF(e) \/ AFin(e) \/ WEnd(e) \/ DNew(e) \/ RF(e) \/ REnd(e)
         /\ l' = l + 1
 Spec == Init /\ [][Next]_vars
 Accepted == IF TLCGet("stats").diameter - 1 # Len(Rec)
